@@ -35,7 +35,17 @@ func c14Call(w *tr.Writer, buf []byte, pos, n int, cls string) {
 	c14CallOn(w, backing, len(buf), pos, n, cls)
 }
 
+var c14Calls = 0
+
 func c14CallOn(w *tr.Writer, backing []byte, blen, pos, n int, cls string) {
+	// history: now and then some other caller asks for a field that does not fit its buffer (a truncated message).
+	// Whatever that call does - panic, error, zero - the calls after it are answered from their own buffers alone.
+	c14Calls++
+	if c14Calls%97 == 3 {
+		tr.Recover(func() { utils.GetBitsAsUint64([]byte{0xff, 0x00}, 12, 8) })
+		tr.Recover(func() { utils.GetBitsAsInt64([]byte{0xff}, 4, 30) })
+		tr.Recover(func() { utils.GetBitsAsUint64(nil, 0, 1) })
+	}
 	buf := backing[:blen]
 	before := append([]byte{}, backing...)
 	ev := c14Event{Buf: tr.Ints(buf), Pos: pos, Len: n, Cls: cls}
